@@ -184,7 +184,11 @@ public:
         else if (o.pending == vs::OP_NOTIFY_ALL) opc = g_api == 'T' ? "t_notify" : "u_notify";
         else if (o.pending == vs::OP_JOIN) opc = g_api == 'T' ? "t_join" : "u_join";
         else if (o.pending == vs::OP_LOCK) {
+#ifdef VS_PROJECT
             bool q = g_pool && o.obj == (const void *) &g_pool->m_queueMutex;
+#else
+            bool q = true;
+#endif
             if (g_api == 'S') opc = q ? "s_lockq" : "s_lockpool";
             else if (g_api == 'C') opc = "c_lockq";
             else if (g_api == 'T') opc = q ? (g_stop_notified ? "t_lockq" : "t_flag") : "t_lockpool";
@@ -262,7 +266,10 @@ public:
             }
         out().raw("\"e\":\"Deadlock\",\"k\":0,\"w\":0,\"n\":" + std::to_string(g_api) + ",\"blocked\":" + b + "]");
     }
-    void on_abort(int) override { out().flush(); }
+    void on_abort(int) override {
+        for (auto &r : vs::race_reports()) out().raw("\"e\":\"Race\"," + r);
+        out().flush();
+    }
     void too_long() override { out().line("\"e\":\"TooLong\""); }
 };
 
@@ -315,12 +322,15 @@ void run_exec(const Execution &ex) {
         ctl.spurious_per_1000 = (int) ex.cfg.num("spurious", 0);
         ctl.stay_num = (int) ex.cfg.num("stay", 1);
         ctl.stay_den = (int) ex.cfg.num("stayden", 2);
+        ctl.clock_per_1000 = (int) ex.cfg.num("clock", 0);
+        ctl.clock_ms = g_expiry > 0 ? g_expiry + 1 : 1;
         int d = (int) ex.cfg.num("pct", 0);
         ctl.pct = d > 0;
         for (int i = 0; i < d; ++i) ctl.change_at.push_back(1 + ctl.rng.below((uint32_t) ex.cfg.num("len", 80)));
     }
     out().line("\"e\":\"Begin\",\"k\":0,\"w\":0,\"n\":%d", g_maxthreads);
     vs::run(ctl, scenario);
+    for (auto &r : vs::race_reports()) out().raw("\"e\":\"Race\"," + r);
     out().line("\"e\":\"End0\",\"k\":0,\"w\":0,\"n\":0");
 }
 
